@@ -218,6 +218,29 @@ enum Probe {
 struct ReqCase {
     aggs: Aggs,
     probe: Probe,
+    /// tag of the focus shape ("" = free generator)
+    focus: String,
+    /// the shape is about segments with many matching documents: prefer the match-all query
+    prefer_all: bool,
+}
+
+impl ReqCase {
+    fn plain(aggs: Aggs, probe: Probe) -> ReqCase {
+        ReqCase {
+            aggs,
+            probe,
+            focus: String::new(),
+            prefer_all: false,
+        }
+    }
+    fn focus(a: ((String, Agg), String), prefer_all: bool) -> ReqCase {
+        ReqCase {
+            aggs: vec![a.0],
+            probe: Probe::None,
+            focus: a.1,
+            prefer_all,
+        }
+    }
 }
 
 fn gen_req_case(rng: &mut Rng, corpus: &Corpus) -> ReqCase {
@@ -226,16 +249,16 @@ fn gen_req_case(rng: &mut Rng, corpus: &Corpus) -> ReqCase {
         corpus,
         counter: 0,
     };
-    let r = g.rng.weighted(&[72, 12, 8, 4, 4]);
+    // segments beyond the sub-aggregation flush threshold: mostly nested requests
+    let multi_flush = corpus.docs.len() > 2048;
+    let r = g.rng.weighted(&[50, 10, 7, 3, 3, 10, 8, 6, if multi_flush { 45 } else { 5 }]);
     match r {
-        0 => ReqCase {
-            aggs: g.gen_request(),
-            probe: Probe::None,
-        },
-        1 => ReqCase {
-            aggs: vec![g.gen_terms_approx()],
-            probe: Probe::None,
-        },
+        0 => ReqCase::plain(g.gen_request(), Probe::None),
+        1 => ReqCase::plain(vec![g.gen_terms_approx()], Probe::None),
+        5 => ReqCase::focus(g.gen_terms_by_key(), false),
+        6 => ReqCase::focus(g.gen_same_field_metric(), false),
+        7 => ReqCase::focus(g.gen_empty_parent_bucket(), false),
+        8 => ReqCase::focus(g.gen_bucket_over_any_sub(), multi_flush),
         2 => {
             // multi-valued field in a value-bucketing aggregation, optionally one metric below
             let field = *g.rng.pick(&[Fd::Im, Fd::Fm]);
@@ -294,10 +317,7 @@ fn gen_req_case(rng: &mut Rng, corpus: &Corpus) -> ReqCase {
                     subs,
                 },
             };
-            ReqCase {
-                aggs: vec![(format!("{}_9", a.kind()), a)],
-                probe: Probe::MvBucket,
-            }
+            ReqCase::plain(vec![(format!("{}_9", a.kind()), a)], Probe::MvBucket)
         }
         3 => {
             let a = Agg::Terms {
@@ -319,10 +339,7 @@ fn gen_req_case(rng: &mut Rng, corpus: &Corpus) -> ReqCase {
                     },
                 )],
             };
-            ReqCase {
-                aggs: vec![("terms_9".to_string(), a)],
-                probe: Probe::TopHitsFrom,
-            }
+            ReqCase::plain(vec![("terms_9".to_string(), a)], Probe::TopHitsFrom)
         }
         _ => {
             let a = Agg::Range {
@@ -335,10 +352,7 @@ fn gen_req_case(rng: &mut Rng, corpus: &Corpus) -> ReqCase {
                 keyed: false,
                 subs: vec![],
             };
-            ReqCase {
-                aggs: vec![("range_9".to_string(), a)],
-                probe: Probe::RangeFrac,
-            }
+            ReqCase::plain(vec![("range_9".to_string(), a)], Probe::RangeFrac)
         }
     }
 }
@@ -417,6 +431,26 @@ fn cond_tags(a: &Agg, corpus: &Corpus, out: &mut BTreeSet<&'static str>) {
                 && corpus.docs.iter().any(|d| d.get(Fd::Fdt).iter().any(|v| matches!(v, V::D(ns) if *ns < 0)))
             {
                 out.insert("composite-date_histogram-negative-timestamp/");
+            }
+        }
+    }
+    if let Agg::Terms {
+        field,
+        size,
+        segment_size,
+        order: Some((OrdT::Key, _)),
+        ..
+    } = a
+    {
+        if matches!(field.ty(), Ty::Date | Ty::Ip) {
+            let size = size.unwrap_or(10);
+            let seg = segment_size.unwrap_or(size.saturating_mul(10)).max(size);
+            if corpus.distinct(*field) > seg as usize {
+                // a segment keeps its first `segment_size` terms in VALUE order (chronological /
+                // numeric address order) while the final result orders and cuts the keys by their
+                // rendered STRING (RFC 3339 text without trailing zeros, dotted / colon address
+                // text): the two orders disagree, so the cut-off drops buckets the final order needs
+                out.insert("terms-key-order-on-date-or-ip-field-with-segment-cut/");
             }
         }
     }
@@ -509,6 +543,8 @@ fn report_mismatches(
             // rounding made the variance of (nearly) constant data slightly negative; its square
             // root is NaN, serialised as null
             "extended_stats/std_deviation-is-NaN-when-rounding-makes-the-variance-negative".to_string()
+        } else if ct.contains("terms-key-order-on-date-or-ip-field-with-segment-cut/") && m.path.contains("terms") {
+            "terms/_key-order-on-date-or-ip-field:segment-cut-off-in-value-order-but-final-order-by-rendered-string".to_string()
         } else if m.what == "order-key-f64-mixed" {
             "terms/_key-order-on-f64-field:integral-keys-sorted-before-fractional-keys".to_string()
         } else if ct.contains("composite-histogram-source-missing_order-last-skips-every-value/") {
@@ -531,7 +567,8 @@ fn report_mismatches(
 fn case_fn(quick: bool) -> impl Fn(u64, &mut Rng, &mut Report) + Sync {
     move |case: u64, rng: &mut Rng, rep: &mut Report| {
         let sch = build_schema();
-        let corpus = gen_corpus(rng, !quick || case % 6 == 5);
+        // quick: every 12th case is a corpus just beyond a multiple of the flush threshold
+        let corpus = gen_corpus(rng, !quick || case % 6 == 5, quick && case % 12 == 7);
         let n = corpus.docs.len();
         let all: Vec<usize> = (0..n).collect();
         // partitions
@@ -590,7 +627,7 @@ fn case_fn(quick: bool) -> impl Fn(u64, &mut Rng, &mut Report) + Sync {
         let nreq = rng.urange(3, 4);
         for ri in 0..nreq {
             let rc = gen_req_case(rng, &corpus);
-            let q = match rng.weighted(&[60, 20, 20]) {
+            let q = match rng.weighted(&if rc.prefer_all { [90, 5, 5] } else { [60, 20, 20] }) {
                 0 => Q::All,
                 1 => Q::Cat(format!("c{}", rng.usize_below(corpus.cat_pool))),
                 _ => {
@@ -631,6 +668,13 @@ fn case_fn(quick: bool) -> impl Fn(u64, &mut Rng, &mut Report) + Sync {
             }
             rep.observe("query_kind", match q { Q::All => "all", Q::Cat(_) => "term", Q::IRange(..) => "range" });
             rep.observe("probe", format!("{:?}", rc.probe));
+            if !rc.focus.is_empty() {
+                rep.observe("focus_shape", rc.focus.clone());
+                rep.count(&format!("focus[{}]", rc.focus.split('/').next().unwrap_or("")), 1);
+                if corpus.docs.len() > 2048 {
+                    rep.count("focus_requests_on_multi_flush_corpora", 1);
+                }
+            }
             let witness = json!({
                 "corpus": corpus.descr, "request": req_json, "query": format!("{q:?}"),
                 "matching_docs": matching.len(), "request_index": ri,
@@ -832,16 +876,26 @@ fn main() {
          fields; missing, multi-valued, negative, fractional, on-boundary values, high-cardinality terms) indexed in 4 \
          partitions (1 segment / k contiguous segments / k' shuffled segments / 1-3 separately searched indexes merged \
          through DistributedAggregationCollector + merge_fruits in fold, permuted right-nested, pairwise-tree and \
-         postcard round-tripped order) x 3-4 generated request trees (depth <= 3) over value_count, sum, min, max, avg, \
+         postcard round-tripped order) x 3-4 generated request trees (depth <= 3, focus shapes wrapped in a parent \
+         <= 4) over value_count, sum, min, max, avg, \
          stats, extended_stats, percentiles, cardinality, top_hits, range, histogram, date_histogram, terms, filter \
          (single `filter`; a plural `filters` aggregation does not exist in this version), composite (terms / histogram \
          / fixed-interval date_histogram sources, first page only; calendar intervals and `after` pagination not \
-         generated) x a filtering query (all / term / range). evaluations = (corpus, request, partition) triples, each \
+         generated) x a filtering query (all / term / range). About a third of the requests are focus shapes: \
+         terms ordered by _key on every field type, top-level or below another bucket aggregation, with a per \
+         segment cut-off (explicit segment_size or the default 10 x size below the number of distinct terms) or \
+         without; a value bucket (terms / histogram / composite / filter) with extended_stats, stats, avg or sum \
+         of the same single-valued field (constant and nearly constant buckets of values whose sums are inexact); \
+         a range with buckets no document falls into x one sub aggregation of a uniformly chosen kind; any bucket \
+         aggregation x one sub aggregation of a uniformly chosen kind. In quick every 12th corpus (thorough: one in \
+         27) has 2048 k + 1..48 documents, so that one-segment partitions feed their sub aggregations by a full \
+         flush followed by a short one; there half of the requests are of the last shape. evaluations = (corpus, request, partition) triples, each \
          compared with a naive evaluator over the model documents. non-trivial = the result has >= 2 buckets or >= 2 \
          segments/indexes were merged; distinct = distinct (request kind+field tree, partition shape, query is-all) keys.",
         ctx.scale(400, 5000),
         &[
             "terms aggregations are compared exactly only with segment_size >= cardinality; with a small segment_size only the documented bounds are asserted",
+            "exception: terms ordered by _key with min_doc_count <= 1 and no `missing` are compared exactly also when segments cut (every segment keeps its first segment_size >= size keys in the requested order, so no bucket among the first `size` can lose a document); only doc_count_error_upper_bound is then not required to be 0",
             "ties in _count / metric order are canonicalised: the sequence of sort values and the per-key contents are compared, not the order inside a tie",
             "histogram bucket keys follow the documented f64 formula floor((v-offset)/interval)*interval+offset evaluated in f64",
             "a range aggregation below an empty parent bucket may list every range with doc_count 0 or no bucket at all (both accepted)",
